@@ -98,13 +98,26 @@ fn base_args(cfg: &RunCfg) -> Vec<String> {
     if !cfg.build_label.is_empty() {
         a.extend(["--build-label".into(), cfg.build_label.clone()]);
     }
+    if !cfg.skip.is_empty() {
+        a.extend(["--skip".into(), cfg.skip.iter().map(|(s, i)| format!("{s}:{i}")).collect::<Vec<_>>().join(",")]);
+    }
     if let Some(s) = cfg.only_stage {
         a.extend(["--only-stage".into(), s.to_string()]);
     }
     a
 }
 
-pub fn supervise_run(cfg: &RunCfg) -> u8 {
+type FatalRun = (Stage, u64, Option<usize>, &'static str, String);
+
+/// Is a run that kills or hangs the process a violation of THIS property? Totality of decoders and
+/// parsers is C17's statement; C16's stages only ever feed valid input, so a fatal run there breaks
+/// the round trip; for C04 only a generator that never returns counts (no value is obtained) — a
+/// decoder hang met while C04 observes decoder outputs is skipped, not reported.
+fn fatal_relevant(property: &str, stage: &Stage) -> bool {
+    property != "C04" || stage.kind == StageKind::Entropy
+}
+
+fn run_once(cfg: &RunCfg) -> Result<u8, FatalRun> {
     let hang_file = format!("{}/.hang-{}-{}", cfg.replays, cfg.property, std::process::id());
     let _ = std::fs::create_dir_all(&cfg.replays);
     let _ = std::fs::remove_file(&hang_file);
@@ -124,21 +137,46 @@ pub fn supervise_run(cfg: &RunCfg) -> u8 {
             let mut it = h.split_whitespace().filter_map(|x| x.parse::<u64>().ok());
             let (Some(arm_id), Some(index), point) = (it.next(), it.next(), it.next()) else {
                 println!("HARNESS-ERROR: malformed hang file");
-                return 2;
+                return Ok(2);
             };
-            let Some(stage) = batch::stages(&cfg.property, &cfg.tier, cfg.scale).into_iter().find(|s| s.arm_id == arm_id) else { return 2 };
-            report(cfg, &stage, index, point.map(|p| p as usize), "HANG", format!("a single simulated run did not finish within {HANG_SECS} s"))
+            let Some(stage) = batch::stages(&cfg.property, &cfg.tier, cfg.scale).into_iter().find(|s| s.arm_id == arm_id) else { return Ok(2) };
+            let point = if stage.kind == StageKind::Sweep { point.map(|p| p as usize) } else { None };
+            Err((stage, index, point, "HANG", format!("a single simulated run did not finish within {HANG_SECS} s")))
         }
-        Died::Exit(c) => c.clamp(0, 255) as u8,
+        Died::Exit(c) => Ok(c.clamp(0, 255) as u8),
         Died::Signal(sig) => {
             println!("simctl: worker process died with signal {sig}; isolating the run by re-executing seed ranges");
-            isolate(cfg, sig)
+            match isolate(cfg, sig) {
+                Some(f) => Err(f),
+                None => {
+                    println!("HARNESS-ERROR: the worker process died with signal {sig} but no seed range reproduces it");
+                    Ok(2)
+                }
+            }
         }
         Died::Timeout => {
             println!("HARNESS-ERROR: worker process exceeded the overall time limit");
-            2
+            Ok(2)
         }
     }
+}
+
+pub fn supervise_run(cfg: &RunCfg) -> u8 {
+    let mut cfg = cfg.clone();
+    for _ in 0..6 {
+        match run_once(&cfg) {
+            Ok(code) => return code,
+            Err((stage, index, point, class, detail)) => {
+                if fatal_relevant(&cfg.property, &stage) {
+                    return report(&cfg, &stage, index, point, class, detail);
+                }
+                println!("simctl: run {index} of stage '{}' is fatal ({class}) but that is outside {}'s statement (it is C17's); skipping it and re-running", stage.name, cfg.property);
+                cfg.skip.push((stage.arm_id, index));
+            }
+        }
+    }
+    println!("HARNESS-ERROR: more than 5 fatal runs outside this property's scope");
+    2
 }
 
 fn probe(cfg: &RunCfg, stage: &Stage, from: u64, to: u64, points: Option<(u64, usize, usize)>) -> Died {
@@ -151,7 +189,7 @@ fn probe(cfg: &RunCfg, stage: &Stage, from: u64, to: u64, points: Option<(u64, u
     spawn_wait(&args, Duration::from_secs(60 + n / 2000), true)
 }
 
-fn isolate(cfg: &RunCfg, sig: i32) -> u8 {
+fn isolate(cfg: &RunCfg, sig: i32) -> Option<FatalRun> {
     for stage in batch::stages(&cfg.property, &cfg.tier, cfg.scale) {
         if probe(cfg, &stage, 0, stage.runs, None) == Died::Exit(0) {
             continue;
@@ -180,10 +218,9 @@ fn isolate(cfg: &RunCfg, sig: i32) -> u8 {
             }
             point = Some(a);
         }
-        return report(cfg, &stage, lo, point, "ABORT", format!("the process was killed by signal {sig} (abort / failed allocation / stack overflow) during this run"));
+        return Some((stage, lo, point, "ABORT", format!("the process was killed by signal {sig} (abort / failed allocation / stack overflow) during this run")));
     }
-    println!("HARNESS-ERROR: the worker process died with signal {sig} but no seed range reproduces it");
-    2
+    None
 }
 
 pub fn plan_at(cfg: &RunCfg, stage: &Stage, index: u64, point: Option<usize>) -> Plan {
